@@ -133,8 +133,9 @@ func (fs *LocalFS) CreateDevice(n NodeDevice) error {
 	return os.Chtimes(dst, n.MTime, n.MTime)
 }
 
-// setSymlinkTime sets the modification time of a symlink itself, not its target.
-func setSymlinkTime(name string, mtime time.Time) error {
+// setPathTime sets the modification time of the named object itself, without
+// following it if it is a symlink.
+func setPathTime(name string, mtime time.Time) error {
 	ts, err := unix.TimeToTimespec(mtime)
 	if err != nil {
 		return err
